@@ -14,6 +14,8 @@ CONSTANTS
   MaxRounds = 2
   MaxOps = 13
   EmitAt = 0
+  Jumps = {1, 301, 601, 5000}
+  MaxAdv = 1
 INIT GInit
 NEXT GNextC
 VIEW GView
